@@ -1490,7 +1490,7 @@ func cliGen(w *bufio.Writer, a map[string]string) {
 	case "C09":
 		genC09Exhaustive(w, g)
 		if thorough {
-			genC09(w, g, 2300)
+			genC09(w, g, 12000)
 		} else {
 			genC09(w, g, 260)
 		}
@@ -1506,8 +1506,8 @@ func cliGen(w *bufio.Writer, a map[string]string) {
 		}
 		if thorough {
 			genC19Exhaustive(w, g, []int{wValid, wValid, wSyntax, wDup, wBuiltin, wExec})
-			genC19Links(w, g, 6)
-			genC19Random(w, g, 1500)
+			genC19Links(w, g, 20)
+			genC19Random(w, g, 9000)
 		} else {
 			genC19Exhaustive(w, g, []int{wValid, wSyntax, wDup})
 			genC19Links(w, g, 1)
@@ -1517,19 +1517,19 @@ func cliGen(w *bufio.Writer, a map[string]string) {
 		genC17(w, g)
 	case "C03":
 		if thorough {
-			genC03(w, g, 1500)
+			genC03(w, g, 6000)
 		} else {
 			genC03(w, g, 200)
 		}
 	case "C14":
 		if thorough {
-			genC14(w, g, 1200)
+			genC14(w, g, 6000)
 		} else {
 			genC14(w, g, 160)
 		}
 	default: // C20
 		if thorough {
-			genC20(w, g, 2500)
+			genC20(w, g, 15000)
 		} else {
 			genC20(w, g, 350)
 		}
